@@ -310,7 +310,15 @@ class Executor:
                                               "set", "frozenset", "type"):
                 return [self.res(st, ClassV(b))]
             return [self.res(st, StubV(n))]
+        if self.depth == 0 and n in self._assigned_locals():
+            # a local that is assigned on some other path: CPython raises UnboundLocalError here
+            return [self.res_exc(st, SExc(UnboundLocalError))]
         raise Unsupported("unbound name %s" % n)
+
+    def _assigned_locals(self):
+        if not hasattr(self, "_assigned_cache"):
+            self._assigned_cache = self.assigned_names(self.finfo.body)
+        return self._assigned_cache
 
     def _split_opt(self, st, v, setter):
         a, b = self.split(st, v.some)
